@@ -261,6 +261,22 @@ def sec_labels():
         raise TranslateError('get_extension_type_ID: `if len(self.extension_numeric_idx) == 0` not found')
     out += '(* sequence.py get_extension_type_ID: numeric id of a name not seen before, from the list of ids in use *)\n'
     out += 'Definition ext_new_id (l : list Z) : Z := match l with [] => %s | x :: r => %s end.\n' % (coq_Z(first), rule)
+    # ---- read(): which libraries / lists are re-created before the sections are loaded
+    resets = set()
+    for st in _read_reset_region():
+        if isinstance(st, ast.Assign) and len(st.targets) == 1 and unparse(st.targets[0]).startswith('self.'):
+            nm = unparse(st.targets[0])[5:]
+            v = st.value
+            if isinstance(v, ast.Call) and unparse(v.func) == 'EventLibrary':
+                resets.add(nm)
+            elif isinstance(v, ast.List) and not v.elts:
+                resets.add(nm)
+    for need in ('trigger_library', 'label_set_library', 'label_inc_library', 'extension_string_idx', 'extension_numeric_idx'):
+        if need not in resets:
+            raise TranslateError('read(): `self.%s` is not re-created before the sections are loaded (the model of '
+                                 'read_ext and the theorems about read() onto a used object assume it is)' % need)
+    out += '(* read_seq.py read(): is extensions_library re-created like the other libraries? *)\n'
+    out += 'Definition read_resets_ext_library : bool := %s.\n' % ('true' if 'extensions_library' in resets else 'false')
     fmts = {}
     for n in ast.walk(w):
         if isinstance(n, ast.Assign) and unparse(n.targets[0]) == 'id_format_str' and isinstance(n.value, ast.Constant):
@@ -331,6 +347,21 @@ def _read_ext_region():
     return out
 
 
+def _read_reset_region():
+    """read(): everything before the section loop (which libraries and lists are re-created)"""
+    t, _ = parse('Sequence/read_seq.py')
+    r = func(t, 'read')
+    body = strip_doc(r)
+    out = []
+    for st in body:
+        if isinstance(st, ast.While):
+            break
+        out.append(st)
+    if not out or len(out) == len(body):
+        raise TranslateError('read: section loop not found')
+    return out
+
+
 SECTIONS = {'GenLabels': sec_labels}
 FP_SOURCES = {
     'Sequence.evaluate_labels': lambda: _method('Sequence/sequence.py', 'Sequence', 'evaluate_labels'),
@@ -339,6 +370,7 @@ FP_SOURCES = {
     'make_digital_output_pulse': lambda: _func('make_digital_output_pulse.py', 'make_digital_output_pulse'),
     'write.extensions': _write_ext_region,
     'read.extensions': _read_ext_region,
+    'read.reset': _read_reset_region,
 }
 FP_GROUPS = {'FP_labels': ['Sequence.evaluate_labels', 'make_label', 'make_trigger', 'make_digital_output_pulse',
-                           'write.extensions', 'read.extensions']}
+                           'write.extensions', 'read.extensions', 'read.reset']}
